@@ -327,8 +327,17 @@ func vC20System(rc *runCtx) {
 	rep := x.report()
 	from := x.termMark
 	if resizedAt >= 0 {
-		// only what was written after the terminal changed is judged against the new width
+		// only what was written after the terminal changed is judged against the new width; a line laid out just
+		// before the change may still be on its way to the terminal at that instant: the first redraw after the
+		// change is not judged either
 		from = resizedAt + 1
+		_, _, evs := x.term.Snapshot()
+		for _, e := range evs {
+			if e.Off >= from {
+				from = e.Off + e.N
+				break
+			}
+		}
 	}
 	colsNow := cols
 	x.o.cols = colsNow
